@@ -82,6 +82,10 @@ def run(ctx):
                 ctx.out.oracle_fail("fasta-cache-agp", inp, f"indexing failed: {conv.errkind(e)}")
                 continue
             errs = T.validate_agp_text(text, {r["name"]: len(r["seq"]) for r in recs})
+            objs = {l.split("\t")[0] for l in text.splitlines() if l.strip() and not l.startswith("#")}
+            missing = [r["name"] for r in recs if len(r["seq"]) > 0 and r["name"] not in objs]
+            if missing:
+                errs.append(f"record(s) {missing} have no object in the cache AGP (last object end cannot equal the record length)")
             if errs:
                 ctx.out.oracle_fail("fasta-cache-agp", inp, "cache AGP is not coordinate-valid: " + errs[0])
     # asm-format CLI
